@@ -33,7 +33,8 @@
 (***************************************************************************)
 EXTENDS RecursorOps, TLC
 
-CONSTANTS Nets,          \* set of simulated internets (see RecursorOps)
+CONSTANTS NetParams,     \* parameters of the simulated internets to explore ...
+          MkNet(_),      \* ... and the internet (see RecursorOps) each of them stands for
           Questions,     \* set of [qn, qt]
           NsLimit, RecLimit,   \* depth limits for nameserver-address goals / alias hops
           MaxCname,      \* alias hops per resolution, whatever the depth
@@ -57,7 +58,8 @@ NoFor == <<"-">>
 Goal(qn, qt, for, d, chain) == [qn |-> qn, qt |-> qt, for |-> for, d |-> d, chain |-> chain]
 
 Init ==
-    /\ net \in Nets /\ q \in Questions
+    /\ \E p \in NetParams : net = MkNet(p)
+    /\ q \in Questions
     /\ stack = <<Goal(q.qn, q.qt, NoFor, 0, {})>>
     /\ zs = [a \in {Root} |-> net.roots]
     /\ got = {} /\ log = <<>> /\ tried = {} /\ gl = {} /\ cn = 0
